@@ -308,6 +308,37 @@ def _slide(ops, a, b):
         k += 1
     return [tuple(o) for o in ops if not (o[0] == 'equal' and o[1] == o[2])]
 
+def _rename_map(base_lines, cur_lines):
+    """If the current code is the template's code up to a consistent, injective renaming of identifiers (same token sequence otherwise),
+    return {old: new}; else None.  Renaming a local is the commonest property-preserving edit: the ghost text then follows it."""
+    try:
+        a = rustsrc.lex('\n'.join(base_lines)); b = rustsrc.lex('\n'.join(cur_lines))
+    except Exception:
+        return None
+    if len(a) != len(b): return None
+    m = {}
+    for x, y in zip(a, b):
+        if x.kind != y.kind: return None
+        if x.text == y.text: continue
+        if x.kind != 'ident': return None
+        if m.setdefault(x.text, y.text) != y.text: return None
+    if not m or len(set(m.values())) != len(m): return None
+    # a renamed identifier must be renamed everywhere, and its new name must not already be in use in the template
+    used = {t.text for t in a if t.kind == 'ident'}
+    if any(x.text in m and y.text != m[x.text] for x, y in zip(a, b)) or any(v in used for v in m.values()): return None
+    return m
+
+def _apply_rename(text, m):
+    try:
+        toks = rustsrc.lex(text, keep_comments=True)
+    except Exception:
+        return text
+    out = []; pos = 0
+    for t in toks:
+        out.append(text[pos:t.start]); out.append(m.get(t.text, t.text) if t.kind == 'ident' else text[t.start:t.end]); pos = t.end
+    out.append(text[pos:])
+    return ''.join(out)
+
 def weave_item(repo, spec: ItemSpec, cache, log, unit_re=()):
     text, it = extract_item(repo, spec, cache)
     raw_hash = hashlib.sha256(text.encode()).hexdigest()[:16]
@@ -324,6 +355,14 @@ def weave_item(repo, spec: ItemSpec, cache, log, unit_re=()):
         for (ch, c), l in zip(segs, cur + [None]):
             emit_chunk(ch)
             if l is not None: out.append((('code', spec.path), l))
+        return out, info
+    ren = _rename_map(base, cur) if len(base) == len(cur) else None
+    if ren:
+        # identifiers renamed consistently: the ghost chunks follow the renaming, line positions are unchanged
+        info['changed'].append({'op': 'rename', 'baseline': sorted(ren), 'current': [ren[k] for k in sorted(ren)]})
+        for (ch, c), l in zip(segs, cur + [None]):
+            for no, t in ch: out.append((('ann', no), _apply_rename(t, ren)))
+            if l is not None: out.append((('code*', spec.path), l))
         return out, info
     sm = difflib.SequenceMatcher(a=bn, b=cn, autojunk=False)
     for tag, i1, i2, j1, j2 in _slide(sm.get_opcodes(), bn, cn):
